@@ -211,15 +211,23 @@ def run_write(ctx, arr, fault=None):
     log = Log()
     log.fault = fault
     out_kind, map_kind, name_kind, node_kind, pname, url_kind, normalize_paths, texts = arr
-    base = {'absolute': '/work/build/', 'relative': 'build/', 'missing': None}[name_kind]
+    base = {'absolute': '/work/build/', 'relative': 'build/', 'missing': None, 'absolute_prefix_siblings': '/work/dist/',
+            'absolute_prefix_siblings_reversed': '/work/dist-min/'}[name_kind]
     out_name = (base + 'out.js') if base is not None else NotImplemented
     map_name = ((base[:-6] if name_kind == 'absolute' else '') + 'maps/out.js.map') if base is not None else NotImplemented
     if name_kind == 'absolute':
         map_name = '/work/maps/out.js.map'
+    # sibling directories of which one name is a string prefix of the other
+    if name_kind == 'absolute_prefix_siblings':
+        map_name = '/work/dist.maps/out.js.map'
+    if name_kind == 'absolute_prefix_siblings_reversed':
+        map_name = '/work/dist/out.js.map'
     src_names = []
     for i, t in enumerate(texts):
         if name_kind == 'absolute':
             src_names.append((t, '/work/src/f%d.js' % i))
+        elif name_kind.startswith('absolute_prefix'):
+            src_names.append((t, '/work/dist-src/f%d.js' % i if i % 2 else '/work/dis/f%d.js' % i))
         elif name_kind == 'relative':
             src_names.append((t, 'src/f%d.js' % i))
         else:
@@ -480,7 +488,7 @@ def explore_read(ctx, kind, text, name):
 def arrangements(ctx):
     outs = ['factory', 'open']
     maps = ['none', 'factory', 'open', 'same']
-    names = ['absolute', 'relative', 'missing']
+    names = ['absolute', 'relative', 'missing', 'absolute_prefix_siblings', 'absolute_prefix_siblings_reversed']
     nodes = ['single', 'list', 'generator', 'several', 'empty']
     printers = ['pretty', 'minify_obfuscate']
     urls = ['default', 'none', 'explicit']
@@ -493,7 +501,9 @@ def arrangements(ctx):
         # output kind x map kind x node kind) plus a seeded sample of the rest
         core = [c for c in allc if (c[6] and c[3] == 'list' and c[4] == 'pretty' and c[0] == 'factory')
                 or (c[2] == 'absolute' and c[5] == 'default' and c[6] and c[4] == 'minify_obfuscate')
-                or (c[3] in ('generator', 'empty') and c[2] == 'relative' and c[5] == 'default' and c[6] and c[4] == 'pretty')]
+                or (c[3] in ('generator', 'empty') and c[2] == 'relative' and c[5] == 'default' and c[6] and c[4] == 'pretty')
+                or (c[2].startswith('absolute_prefix') and c[5] == 'default' and c[6] and c[4] == 'pretty' and c[3] == 'several'
+                    and c[0] == 'factory')]
         rest = [c for c in allc if c not in core]
         allc = core + rest[:24]
     for i, c in enumerate(allc):
